@@ -27,12 +27,17 @@ where
     let mut y = Vec::with_capacity(totpoints);
     let window = make_window::<T>(totpoints, windowfunc);
     let mut sum = T::zero();
+    // Compensated summation, a plain running sum of many small values loses precision in f32.
+    let mut compensation = T::zero();
     for (x, w) in window.iter().enumerate().take(totpoints) {
         let val = *w
             * sinc(
                 (T::coerce(x) - T::coerce(totpoints / 2)) * T::coerce(f_cutoff) / T::coerce(factor),
             );
-        sum += val;
+        let corrected = val - compensation;
+        let new_sum = sum + corrected;
+        compensation = (new_sum - sum) - corrected;
+        sum = new_sum;
         y.push(val);
     }
     sum /= T::coerce(factor);
